@@ -219,6 +219,12 @@ def expect_fields(pred, what):
 # ------------------------------------------------------------------------------------------------
 # C01 round trips
 
+# properties whose compared observables are canonical and whose model values are the specified ones by theorem: a
+# disagreement between implementation and model on a line is then a concrete failing input of the property.  Not so
+# for C09 (which root), C14 (values under forged hints are unspecified), C15 (observation only).
+MODEL_IS_SPEC = {'C01', 'C02', 'C03', 'C04', 'C05', 'C06', 'C07', 'C08', 'C10', 'C11', 'C12', 'C13', 'C16'}
+
+
 def gen_C01(rng, tier):
     n = 12 if tier == 'quick' else 120
     encs = valid_encodings(rng, n)
@@ -747,6 +753,24 @@ def gen_C10(rng, tier):
                     cases.append(Case('f.fq.select %s %s %d' % (H(a), H(b), c), cls='fq:select', oracle=expect(H(b if c else a)), sig='fq-select'))
                 cases.append(Case('f.fq.cteq %s %s' % (H(a), H(b)), cls='fq:cteq', oracle=expect('1' if a == b else '0')))
                 cases.append(Case('f.fq.cteq %s %s' % (H(a), H(a)), cls='fq:cteq', oracle=expect('1')))
+            # pairs whose INTERNAL (Montgomery, R = 2^256 in both limb widths) representations agree on the low k 32-bit
+            # words and differ above, or differ in exactly one word: a comparison / selection that stops early, or
+            # looks at the wrong number of limbs, is invisible on random operands
+            rinv = pow(1 << 256, -1, m)
+            mont_pairs = []
+            for j in range(0, 8):
+                w = 32 * j
+                for _ in range(2 if tier == 'quick' else 8):
+                    m1 = rng.randrange(m)
+                    m2 = ((rng.randrange(m) >> w) << w | (m1 & ((1 << w) - 1))) % (1 << 256)
+                    m3 = m1 ^ (rng.randrange(1, 1 << 32) << w)
+                    for mm in (m2, m3):
+                        if mm < m and mm != m1:
+                            mont_pairs.append((m1 * rinv % m, mm * rinv % m, j))
+            for a, b, j in mont_pairs:
+                cases.append(Case('f.fq.cteq %s %s' % (H(a), H(b)), cls='fq:cteq:mont-word%d' % j, oracle=expect('0')))
+                for c in (0, 1):
+                    cases.append(Case('f.fq.select %s %s %d' % (H(a), H(b), c), cls='fq:select:mont-word%d' % j, oracle=expect(H(b if c else a)), sig='fq-select'))
     return cases
 
 
@@ -1027,6 +1051,24 @@ def gen_C13(rng, tier):
     for s in encs[:4]:
         for sq in seqs:
             cases.append(Case('g.lazy from=enc s=%s ops=%s' % (h32(s), ','.join(sq)), builds=R, cls='lazy-from-enc:%d' % len(sq), oracle=mk_olazy('enc'), canon=gcanon))
+    # operand whose encoding is already known / cached (public input, or forced before the operation), then the
+    # operation, then the encoding of the RESULT as the circuit computes it: must be the native encoding of the result
+    def oenc(out, bld):
+        f = gfields(out)
+        o = f.get('out', '')
+        m = re.match(r'([0-9a-f]{64});enc=([0-9a-f]{64})$', o)
+        if f.get('sat') != '1' or not m:
+            return 'operation on a variable with a known encoding: ' + out[:200]
+        return None if m.group(1) == m.group(2) else 'in-circuit encoding of the result differs from the native encoding of the result'
+    vel = [h32(s) for s in encs[:6]]
+    for i, ea in enumerate(vel):
+        eb = vel[(i * 2 + 1) % len(vel)]
+        for pre in ('enc', 'input'):
+            for op in ('add', 'sub', 'add_ref', 'sub_ref', 'add_asg', 'sub_asg', 'add_const', 'sub_const', 'add_const_asg', 'sub_const_asg', 'select'):
+                cases.append(Case('g.%s a=%s b=%s c=%d pre=%s post=enc' % (op, ea, eb, i % 2, pre), builds=R, cls='%s:pre-%s' % (op, pre), oracle=oenc, canon=gcanon))
+            for op in ('neg', 'dbl'):
+                cases.append(Case('g.%s a=%s pre=%s post=enc' % (op, ea, pre), builds=R, cls='%s:pre-%s' % (op, pre), oracle=oenc, canon=gcanon))
+            cases.append(Case('g.scalarmul a=%s bits=1011 pre=%s post=enc' % (ea, pre), builds=R, cls='scalarmul:pre-%s' % pre, oracle=oenc, canon=gcanon))
     for _ in range(8 if tier == 'quick' else 80):
         (ca, ma), (cb, mb) = rng.choice(els), rng.choice(els)
         for op in ('add', 'sub', 'add_ref', 'sub_ref', 'add_asg', 'sub_asg', 'add_const', 'sub_const', 'add_const_asg', 'sub_const_asg', 'iseq', 'select'):
@@ -1123,6 +1165,30 @@ def gen_C14(rng, tier):
         cases.append(Case('g.alloc_witness exy=%s,%s' % (h32(x), h32(y)), builds=R, cls='alloc-coords:' + cls, oracle=orc, canon=gcanon))
         for fl, yy in ((1, 1), (1, q - 1), (0, 0)):
             cases.append(Case('g.alloc_witness exy=%s,%s hint=%d,%s' % (h32(x), h32(y), fl, h32(yy)), builds=R, cls='alloc-coords-forged:' + cls, oracle=orc, canon=gcanon))
+    # forged bit decompositions (harness `forge`): the sign is the lsb of the UNIQUE canonical decomposition, so the
+    # decomposition x + q of the same residue must be rejected wherever bits are taken
+    def oforge(minimum):
+        def orc(out, bld):
+            m = re.match(r'honest=(\d) groups=(\d+) tried=(\d+) accepted=(\d+) rejected=(\d+) stuck=(\d+)', out)
+            if not m:
+                return 'forging harness: ' + out[:120]
+            honest, groups, tried, acc, rej, stuck = map(int, m.groups())
+            if acc:
+                return 'a non-canonical bit decomposition (x + q) satisfies the constraints: sign / absolute value can be forged'
+            if stuck:
+                return 'forging harness could not decide'
+            if groups < minimum:
+                return 'forging harness found no bit decomposition to attack (gadget layout changed?)'
+            return None
+        return orc
+    small = [v for v in fvals + [0, 1, 2, 3, 12345, (1 << 253) - q - 1, (1 << 253) - q - 2] if v + q < (1 << 253)]
+    for x in small[:12 if tier == 'quick' else 60]:
+        for gname in ('isnonneg', 'isneg', 'abs'):
+            cases.append(Case('g.forge gadget=%s x=%s' % (gname, h32(x)), builds=R, cls='forge-bits:' + gname, oracle=oforge(1), nomodel=True))
+        cases.append(Case('g.forge gadget=elligator r0=%s' % h32(x), builds=R, cls='forge-bits:elligator', oracle=oforge(1), nomodel=True))
+    for s in encs[:6 if tier == 'quick' else 30]:
+        cases.append(Case('g.forge gadget=decompress s=%s' % h32(s), builds=R, cls='forge-bits:decompress', oracle=oforge(2), nomodel=True))
+        cases.append(Case('g.forge gadget=compress e=%s' % h32(s), builds=R, cls='forge-bits:compress', oracle=oforge(2), nomodel=True))
     return cases
 
 
@@ -1185,6 +1251,19 @@ def gen_C15(rng, tier):
                 return 'public input allocation: ' + out[:200]
             return None if m.group(1) == m.group(2) == m.group(3) and f.get('ni') == '2' else 'public input is not exactly [1, encoding]'
         cases.append(Case('g.alloc_input %s' % mk('e'), builds=R, cls='public-input:' + cls, oracle=oinp, nomodel=True))
+    # the seven pinned circuits as synthesised now have the dimensions baked into the pinned keys (cheap: no proving)
+    def okeys(out, bld):
+        m = re.match(r'circuit:(\S+) keys:(\S+) sat=(\d)$', out)
+        if not m:
+            return 'pinned circuit could not be synthesised: ' + out[:160]
+        if m.group(3) != '1':
+            return 'pinned circuit is not satisfied by an honest witness'
+        return None if m.group(1) == m.group(2) else 'circuit dimensions differ from the pinned proving/verifying key'
+    e0, e1 = h32(encs[0]), h32(encs[1 % len(encs)])
+    for circ, arg in (('compression', 'e=' + e1), ('decompression', 'e=' + e1), ('public_element_input', 'e=' + e1), ('negation', 'e=' + e1),
+                      ('elligator', 'r0=' + h32(5)), ('discrete_log', 'scalar=' + h32(12345)), ('add_assign_add', 'a=%s b=%s' % (e0, e1)),
+                      ('compression', 'e=' + e0), ('negation', 'e=' + e0), ('elligator', 'r0=' + h32(0))):
+        cases.append(Case('g.keyshape circuit=%s %s' % (circ, arg), builds=R, cls='keyshape:' + circ, oracle=okeys, nomodel=True))
     if tier == 'thorough':
         ok = expect('verify=1 wrong_input=0')
         for s in encs[:4]:
@@ -1291,7 +1370,8 @@ for pid, gen, extra in (
         ('C01', gen_C01, {}), ('C02', gen_C02, {}), ('C03', gen_C03, {}), ('C04', gen_C04, {}), ('C05', gen_C05, {}), ('C06', gen_C06, {}),
         ('C07', gen_C07, {}), ('C08', gen_C08, {}), ('C09', gen_C09, {}), ('C10', gen_C10, {}), ('C11', gen_C11, {}),
         ('C12', gen_C12, dict(cross_build=True)), ('C13', gen_C13, {}), ('C14', gen_C14, {}), ('C15', gen_C15, {}), ('C16', gen_C16, dict(const_facts='c16'))):
-    PROPS[pid] = dict(level=LEVELS.get(pid, 'translation_validation'), modules=['Decaf.Props.%s' % pid], namespaces=[pid], gen=gen, trusted_base=list(TB_FIELD), **extra)
+    PROPS[pid] = dict(level=LEVELS.get(pid, 'translation_validation'), modules=['Decaf.Props.%s' % pid], namespaces=[pid], gen=gen, trusted_base=list(TB_FIELD),
+                      model_is_spec=pid in MODEL_IS_SPEC, **extra)
 PROPS['C15']['explanation'] = ('Observation, not proof: the constraint matrices are produced at run time by ark-r1cs-std and key compatibility is a fact about '
                                'ark-groth16; the check digests to_matrices() of every gadget over all input classes and in Setup vs Prove mode, checks that a public '
                                'element contributes exactly the instance [1, encode P] = to_field_elements, and (thorough) proves/verifies with the pinned keys and '
